@@ -170,6 +170,17 @@ def build_cases(tier):
     # (iv) invalid operations
     for rule, q in INVALID_OPERATIONS.items():
         add(f"invalid_operation:{rule}", "InvalidOperationForSchema", queries=q, states=STATES if tier != "quick" else ("absent", "previous_generation"), tags={f"rule:{rule}", "invalid_operation"})
+    # operations are validated against the schema as processed by the plugins (process_schema hook), in both directions
+    hide, addf = "mc.testplugins.HideInternalPlugin", "mc.testplugins.AddFieldPlugin"
+    internal_schema = SCHEMA_V.replace("type Query {", "type Query {\n  internalNote: String\n  internalUser(id: ID!): User\n")
+    add("invalid_operation:field_hidden_by_plugin", "InvalidOperationForSchema", section={"plugins": [hide]}, schema=internal_schema, queries="query GetNote { internalNote }\n",
+        states=STATES, tags={"invalid_operation", "plugin_processed_schema"})
+    add("invalid_operation:field_hidden_by_second_plugin", "InvalidOperationForSchema", section={"plugins": [addf, hide]}, schema=internal_schema,
+        queries=VALID_QUERY + "query GetInternal($id: ID!) { addedByPlugin internalUser(id: $id) { id } }\n", states=("absent", "previous_generation"), tags={"invalid_operation", "plugin_processed_schema"})
+    add("valid_operation_on_field_added_by_plugin", "ok", section={"plugins": [addf]}, queries=VALID_QUERY + "query GetAdded { addedByPlugin }\n", states=("absent", "previous_generation"),
+        tags={"positive", "plugin_processed_schema"})
+    add("valid_operation_with_hiding_plugin", "ok", section={"plugins": [hide]}, schema=internal_schema, states=("absent",), tags={"positive", "plugin_processed_schema"})
+    add("invalid_operation:without_the_adding_plugin", "InvalidOperationForSchema", queries=VALID_QUERY + "query GetAdded { addedByPlugin }\n", states=("absent",), tags={"invalid_operation", "plugin_processed_schema"})
     # the --config option: the selected file decides, whatever a pyproject.toml lying next to it says (both strategies)
     for strat, extra in (("client", {}), ("graphqlschema", {"target_file_path": "schema_out.py"})):
         for decoy_label, decoy in (("none", None), ("invalid", "[tool.ariadne-codegen]\nschema_path = \"does_not_exist.graphql\"\nqueries_path = \"nope\"\ntarget_file_path = \"x.txt\"\n"),
